@@ -5,6 +5,7 @@ package main
 // sub-processes), and compares the two line by line, key by key.
 
 import (
+	"strconv"
 	"bufio"
 	"encoding/json"
 	"flag"
@@ -37,6 +38,8 @@ type OracleViolation struct {
 	Case   string `json:"case"`
 	Script string `json:"script"`
 	Known  string `json:"known,omitempty"`
+	// NoInput: an obligation that no longer checks, with no input known on which the property fails
+	NoInput bool `json:"no_input,omitempty"`
 }
 
 type Result struct {
@@ -57,6 +60,7 @@ type Result struct {
 	Outcomes      map[string]int    `json:"outcomes"`
 	Samples       []string          `json:"samples"`
 	WallS         float64           `json:"wall_s"`
+	OptValidation map[string]int    `json:"opt_validation,omitempty"` // translation validation of the optimizer on the real bytes
 }
 
 func parseLine(line string) (id string, kv map[string]string) {
@@ -387,14 +391,26 @@ func main() {
 			res.Violations = append(res.Violations, v)
 		}
 	}
+	// translation validation of the optimizer: every step from the raw bytes the implementation really
+	// compiled to the optimised bytes it really holds must be one the Lean validator (proved sound) accepts
+	var notValidated []OracleViolation
+	if *prop == "C03" {
+		notValidated, res.OptValidation = runOptvQueries(*driver, cases, implKV)
+	}
 	// direct oracles: relations between IMPL lines
+	behavioural := map[string]bool{}
 	for _, v := range RunOracles(*prop, cases, implKV) {
+		behavioural[v.ID] = true
 		if id := kf.match(*prop, v); id != "" {
 			v.Known = id
 			res.Known = append(res.Known, v)
 		} else {
 			res.Violations = append(res.Violations, v)
 		}
+	}
+	for _, v := range notValidated {
+		v.NoInput = !behavioural[v.ID] // the behavioural oracle (optimised vs NoOptimize) is the search for a failing input
+		res.Violations = append(res.Violations, v)
 	}
 	// violations found above (escaped panics) may also be known findings
 	var remaining []OracleViolation
@@ -466,6 +482,100 @@ func implOnlyKey(k string) bool {
 		}
 	}
 	return false
+}
+
+// runOptvQueries sends, for every accepted optimised case whose code was dumped, the implementation's raw and
+// optimised bodies to the Lean validator (`fullTrace`): each step of the optimizer must validate and the result
+// must be the optimised body.  Refusals of the square-root fold are the known finding KF-12 (decided by
+// the behavioural oracle), and only counted here.
+func runOptvQueries(driver string, cases []GenCase, implKV map[string]map[string]string) ([]OracleViolation, map[string]int) {
+	stats := map[string]int{"programs": 0, "validated": 0, "steps_validated": 0, "refused_sqrt_fold": 0, "refused_other": 0, "differs": 0}
+	var lines []string
+	byID := map[string]*GenCase{}
+	split := func(fns string) []string {
+		var out []string
+		if fns == "" {
+			return out
+		}
+		for _, f := range strings.Split(fns, ";") {
+			parts := strings.Split(f, ":")
+			if len(parts) == 3 {
+				out = append(out, parts[2])
+			}
+		}
+		return out
+	}
+	for i := range cases {
+		gc := &cases[i]
+		ikv := implKV[gc.Case.ID]
+		if ikv == nil || ikv["prep"] != "ok" || !gc.Case.Opt {
+			continue
+		}
+		raw, ok1 := ikv["raw"]
+		main, ok2 := ikv["main"]
+		if !ok1 || !ok2 || raw == "PREPFAIL" {
+			continue
+		}
+		rf, of := split(ikv["rawfns"]), split(ikv["fns"])
+		if len(rf) != len(of) {
+			continue
+		}
+		var sb strings.Builder
+		fmt.Fprintf(&sb, "(optv %s (body #%s #%s)", gc.Case.ID, raw, main)
+		for j := range rf {
+			fmt.Fprintf(&sb, " (body #%s #%s)", rf[j], of[j])
+		}
+		sb.WriteString(")")
+		lines = append(lines, sb.String())
+		byID[gc.Case.ID] = gc
+	}
+	if len(lines) == 0 {
+		return nil, stats
+	}
+	cmd := exec.Command(driver)
+	cmd.Stdin = strings.NewReader(strings.Join(lines, "\n") + "\n")
+	cmd.Stderr = os.Stderr
+	b, err := cmd.Output()
+	if err != nil {
+		panic(err)
+	}
+	var out []OracleViolation
+	seen := 0
+	for _, l := range strings.Split(string(b), "\n") {
+		id, kv := parseLine(l)
+		if id == "" {
+			continue
+		}
+		seen++
+		stats["programs"]++
+		if n, err := strconv.Atoi(kv["steps"]); err == nil {
+			stats["steps_validated"] += n
+		}
+		v := kv["optv"]
+		switch {
+		case v == "ok":
+			stats["validated"]++
+		case strings.HasSuffix(v, "maths:sqrt-fold"):
+			stats["refused_sqrt_fold"]++
+		default:
+			if strings.HasPrefix(v, "differs") {
+				stats["differs"]++
+			} else {
+				stats["refused_other"]++
+			}
+			gc := byID[id]
+			if gc == nil {
+				continue
+			}
+			out = append(out, OracleViolation{ID: gc.Case.ID, Stream: gc.Stream, Oracle: "optimizer-step-not-validated",
+				Detail: "the optimised program the evaluator holds is not shown to refine the raw one: " + v +
+					" (theorem OptSim.optimize_refines needs OptCheck.fullTrace to accept every body)", Case: gc.Case.Sexp(), Script: gc.Case.Script})
+		}
+	}
+	if seen != len(lines) {
+		panic(fmt.Sprintf("optv queries: %d sent, %d answered", len(lines), seen))
+	}
+	return out, stats
 }
 
 // runWfQueries sends, for every accepted case whose code was dumped, the implementation's constants
